@@ -13,14 +13,16 @@ HERE = os.path.dirname(os.path.abspath(__file__))
 CSTUB = os.path.join(HERE, "cstub")
 
 HEADERS = ["types.h", "conntrack_types.h", "nat_types.h", "policy.h", "routes.h", "sendrecv.h", "jump.h",
-           "ifstate.h", "failsafe.h", "counters.h", "rule_counters.h", "qos.h", "conntrack_cleanup.h", "allowsources.h"]
+           "ifstate.h", "failsafe.h", "counters.h", "rule_counters.h", "qos.h", "conntrack_cleanup.h", "allowsources.h", "events.h", "profiling.h"]
 HEADERS_V4_ONLY = ["ip_v4_fragment.h"]
 # records laid out whether or not a map declaration names them (all `struct X` key/value types of the declared
 # maps are added automatically)
 STRUCTS = ["cali_tc_state", "ip_set_key", "calico_ct_key", "calico_ct_value", "calico_ct_leg", "calico_nat",
            "calico_nat_key", "calico_nat_value", "calico_nat_secondary_key", "calico_nat_dest", "cali_maglev_key",
            "calico_nat_affinity_key", "calico_nat_affinity_val", "sendrec_key", "sendrec_val", "ct_nats_key",
-           "cali_rt_key", "cali_rt"]
+           "cali_rt_key", "cali_rt", "event_header"]
+# records defined in a .c file of a BPF program rather than in a header: (file, extra flags, [struct])
+EXTRA_TUS = [("conntrack_cleanup.c", ["-DCALI_COMPILE_FLAGS=512"], ["ct_iter_ctx"])]   # 512 = CALI_CT_CLEANUP, as calculate-flags gives
 # constants / scalar types whose size enters a total-size comparison: name -> C declarator of a char array / member
 CONSTS = {"STATE_SIZE": "char x[STATE_SIZE]", "__u32": "__u32 x", "MAX_COUNTERS_SIZE": "char x[MAX_COUNTERS_SIZE]"}
 # key/value types that are arrays: their elements become member rows v[0] .. v[n-1]
@@ -32,17 +34,19 @@ class TranslateError(Exception):
     pass
 
 
-def _clang(repo, src, ipver, workdir, preprocess=False):
+def _clang(repo, src, ipver, workdir, preprocess=False, extra=(), tag=""):
     inc = os.path.join(repo, "felix", "bpf-gpl")
     if not os.path.isdir(inc):
         raise TranslateError("no felix/bpf-gpl in %s" % repo)
-    path = os.path.join(workdir, "stub_v%d%s.c" % (ipver, "_E" if preprocess else ""))
+    path = os.path.join(workdir, "stub_v%d%s%s.c" % (ipver, "_E" if preprocess else "", tag))
     open(path, "w").write(src)
     # -D__x86_64__ : as felix/bpf-gpl/Makefile does for an x86-64 build host; cstub/ stands in for libbpf's headers
     cmd = ["timeout", "120", "clang", "-target", "bpf", "-D__x86_64__", "-w", "-I", CSTUB, "-I", inc,
            "-I/usr/include/x86_64-linux-gnu", "-fsyntax-only", "-Xclang", "-fdump-record-layouts", path]
     if ipver == 6:
         cmd.insert(5, "-DIPVER6")
+    for x in extra:
+        cmd.insert(5, x)
     if preprocess:
         cmd = [c for c in cmd if c not in ("-fsyntax-only", "-Xclang", "-fdump-record-layouts")]
         cmd.insert(-1, "-E")
@@ -191,6 +195,32 @@ def _c_view_ver(repo, workdir, ver):
                 raise TranslateError("array value %s: element size does not divide the total" % n)
             for i in range(width // el):
                 crows.append((ver, n, "v[%d]" % i, off + i * el, el))
+        # records that live in a program's .c file: their own translation unit, same two passes
+        for ti, (cfile, flags, sts) in enumerate(EXTRA_TUS):
+            xsrc = '#include "%s"\n' % cfile + "".join('_Static_assert(sizeof(struct %s) > 0, "");\n' % x for x in sts)
+            xb = _blocks(_clang(repo, xsrc, ver, workdir, extra=flags, tag="_x%d" % ti))
+            xm = []
+            for st in sts:
+                if "struct " + st not in xb:
+                    raise TranslateError("clang printed no layout for struct %s of %s (ipver %d)" % (st, cfile, ver))
+                rows, size = xb["struct " + st]
+                ctotals.append((ver, st, size))
+                stack = []
+                for off, width, depth, typ, name in rows:
+                    stack = stack[:depth - 1]
+                    stack.append(name)
+                    if name is not None:
+                        xm.append((st, ".".join(x for x in stack if x is not None), off, width))
+            xsrc2 = xsrc
+            for j, (st, path, off, width) in enumerate(xm):
+                if width is None:
+                    xsrc2 += "struct __verif_xs_%d { __typeof__(((struct %s *)0)->%s) x; };\n_Static_assert(sizeof(struct __verif_xs_%d) > 0, \"\");\n" % (j, st, path, j)
+            xb2 = _blocks(_clang(repo, xsrc2, ver, workdir, extra=flags, tag="_x%d" % ti))
+            for j, (st, path, off, width) in enumerate(xm):
+                if width is None:
+                    width = xb2["struct __verif_xs_%d" % j][1] * 8
+                crows.append((ver, st, path, off, width))
+            structs = structs + sts
         info = dict(structs=len(structs), maps=len(maps_), members=len(members))
     return crows, ctotals, info, maps_
 
@@ -402,6 +432,19 @@ MAPPING.update({
         "NewConnValue.maxConnections": (["max_connections"], E), "NewConnValue.currentCount": (["current_count"], E),
         "MaxConnections()": (["max_connections"], E), "CurrentCount()": (["current_count"], E)}),
 })
+MAPPING.update({
+    "profiling.Key": ("prof_key", {"KeyFromBytes.Ifindex": (["ifindex"], E), "KeyFromBytes.Kind": (["kind"], E)}),
+    "profiling.Value": ("prof_val", {"ValueFromBytes.Time": (["time"], E), "ValueFromBytes.Samples": (["samples"], E)}),
+    "jump.Key": (None, {"Key.idx": (["v"], E)}),
+    "jump.Value": (None, {"Value.fd": (["v"], E)}),
+    # not a map: program input/output block; pairing by the WARNING comments in bpf_scanner.go / conntrack_cleanup.c
+    "conntrack.CleanupContext": ("ct_iter_ctx", {
+        "Encode.StartTime": (["now"], E), "WithStartTime": (["now"], E), "Encode.EndTime": (["end_time"], E),
+        "Encode.NumKVsCleaned": (["num_cleaned"], E), "Decode.StartTime": (["now"], E), "Decode.EndTime": (["end_time"], E),
+        "Decode.NumKVsCleaned": (["num_cleaned"], E)}),
+    # events.Type is a 16-bit Go type holding the __u32 type; the length is only observable below the buffer size
+    "events.Header": ("event_header", {"ParseEvent.Type": (["type"], P), "ParseEvent.Len": (["len"], P)}),
+})
 # generated programs: the builder's own annotation "state->X" names the C member; exceptions to Exact:
 STATE_ACCESS_SPECIAL = {
     "state->rules_hit": (["rules_hit"], P),              # 8-bit load/store of the (<= 32) hit counter held in a __u32
@@ -440,6 +483,8 @@ TOTALS.update({
     # the Go mirror struct of struct cali_tc_state: compared against BOTH builds of the C struct
     "sizeof(state.State)": "cali_tc_state", "len(state.State.AsBytes())": "cali_tc_state",
 })
+TOTALS.update({"profiling.KeySize": "prof_key", "profiling.ValueSize": "prof_val", "len(jump.Key())": "__u32",
+               "len(jump.Value())": "__u32", "sizeof(conntrack.CleanupContext)": "ct_iter_ctx"})
 # the builder reserves one stack slot (of the IPv6 key size) per IP set key for both families: it must hold the key
 TOTALS_GE = {(4, "polprog.ipSetKeyStackSlot"): "ip_set_key"}
 TOTALS_V6_ONLY = {"polprog.ipSetKeyStackSlot": "ip_set_key"}
@@ -581,21 +626,33 @@ def _s(x):
 
 
 def gen_text(crows, grows, mrows, ctotals, gtotals, tmrows, header=""):
+    """names are interned (see Layout.v): every row carries numbers, `names` gives their text"""
+    ids = {}
+
+    def n(x):
+        if x not in ids:
+            ids[x] = len(ids) + 1
+        return ids[x]
+
     o = ["(* GENERATED on every run by /verif/harness/C13/translate.py - do not edit. %s *)" % header,
          "From Coq Require Import List NArith String.", "From Verif.C13 Require Import Layout.",
-         "Import ListNotations.", "Open Scope string_scope.", "Open Scope N_scope.", ""]
-    o.append("Definition c_rows : list crow := [\n" + ";\n".join(
-        "  CRow %d %s %s %d %d" % (v, _s(s), _s(p), off, sz) for (v, s, p, off, sz) in crows) + "\n].\n")
-    o.append("Definition g_rows : list grow := [\n" + ";\n".join(
-        "  GRow %d %s %s %d %d" % (v, _s(s), _s(f), off, sz) for (v, s, f, off, sz, *_h) in grows) + "\n].\n")
-    o.append("Definition m_rows : list mrow := [\n" + ";\n".join(
-        "  MRow %d %s %s %s [%s] %s" % (v, _s(gs), _s(gf), _s(cs), "; ".join(_s(p) for p in ps), rel)
+         "Import ListNotations.", "Open Scope N_scope.", ""]
+    body = []
+    body.append("Definition c_rows : list crow := [\n" + ";\n".join(
+        "  CRow %d %d %d %d %d" % (v, n(s), n(p), off, sz) for (v, s, p, off, sz) in crows) + "\n].\n")
+    body.append("Definition g_rows : list grow := [\n" + ";\n".join(
+        "  GRow %d %d %d %d %d" % (v, n(s), n(f), off, sz) for (v, s, f, off, sz, *_h) in grows) + "\n].\n")
+    body.append("Definition m_rows : list mrow := [\n" + ";\n".join(
+        "  MRow %d %d %d %d [%s] %s" % (v, n(gs), n(gf), n(cs), "; ".join(str(n(p)) for p in ps), rel)
         for (v, gs, gf, cs, ps, rel) in mrows) + "\n].\n")
-    o.append("Definition c_totals : list trow := [\n" + ";\n".join("  TRow %d %s %d" % (v, _s(n), sz) for (v, n, sz) in ctotals) + "\n].\n")
-    o.append("Definition g_totals : list trow := [\n" + ";\n".join("  TRow %d %s %d" % (v, _s(n), sz) for (v, n, sz) in gtotals) + "\n].\n")
-    o.append("Definition tm_rows : list tmrow := [\n" + ";\n".join("  TMRow %d %s %s %s" % (v, _s(g), _s(c), "true" if ge else "false") for (v, g, c, ge) in tmrows) + "\n].\n")
-    o.append("Definition tables : tables := Tables c_rows g_rows m_rows c_totals g_totals tm_rows.\n")
-    return "\n".join(o)
+    body.append("Definition c_totals : list trow := [\n" + ";\n".join("  TRow %d %d %d" % (v, n(nm), sz) for (v, nm, sz) in ctotals) + "\n].\n")
+    body.append("Definition g_totals : list trow := [\n" + ";\n".join("  TRow %d %d %d" % (v, n(nm), sz) for (v, nm, sz) in gtotals) + "\n].\n")
+    body.append("Definition tm_rows : list tmrow := [\n" + ";\n".join(
+        "  TMRow %d %d %d %s" % (v, n(g), n(c), "true" if ge else "false") for (v, g, c, ge) in tmrows) + "\n].\n")
+    body.append("Definition tables : tables := Tables c_rows g_rows m_rows c_totals g_totals tm_rows.\n")
+    # the name table is a comment-like artefact for the reader: kept as a Coq comment so that it costs nothing to check
+    names = "(* names:\n" + "\n".join("  %d = %s" % (i, x.replace("*)", "* )").replace("(*", "( *")) for x, i in sorted(ids.items(), key=lambda kv: kv[1])) + "\n*)\n"
+    return "\n".join(o + body) + "\n" + names
 
 
 DIAG = """From Coq Require Import List NArith String Bool.
